@@ -1,0 +1,43 @@
+//go:build verif
+// +build verif
+
+package group_create
+
+import (
+	"strconv"
+
+	"com.tuntun.rangers/node/src/common"
+	"com.tuntun.rangers/node/src/consensus/groupsig"
+	"com.tuntun.rangers/node/src/consensus/model"
+	"com.tuntun.rangers/node/src/middleware/log"
+)
+
+// Verification hook (C13): exported access to the unexported distributed key
+// generation state machine groupNodeInfo. Wrappers only; no logic of their own.
+
+// VerifC13InitLogger sets the package logger exactly as groupCreateProcessor.Init does,
+// so that handleSharePiece can be driven without a chain.
+func VerifC13InitLogger() {
+	groupCreateLogger = log.GetLoggerByIndex(log.GroupCreateLogConfig, strconv.Itoa(common.InstanceIndex))
+	groupCreateDebugLogger = log.GetLoggerByIndex(log.GroupCreateDebugLogConfig, strconv.Itoa(common.InstanceIndex))
+}
+
+type VerifC13Node struct{ ni *groupNodeInfo }
+
+func VerifC13NewNode(mi *model.SelfMinerInfo, groupHash common.Hash, groupMemberNum int) *VerifC13Node {
+	return &VerifC13Node{ni: NewGroupNodeInfo(mi, groupHash, groupMemberNum)}
+}
+
+func (v *VerifC13Node) GenSharePiece(mems []groupsig.ID) map[string]groupsig.Seckey {
+	return v.ni.genSharePiece(mems)
+}
+func (v *VerifC13Node) SeedPubKey() groupsig.Pubkey { return v.ni.getSeedPubKey() }
+func (v *VerifC13Node) HandleSharePiece(id groupsig.ID, share *model.SharePiece) int {
+	return v.ni.handleSharePiece(id, share)
+}
+func (v *VerifC13Node) SignSecKey() groupsig.Seckey { return v.ni.getSignSecKey() }
+func (v *VerifC13Node) GroupPubKey() groupsig.Pubkey { return v.ni.getGroupPubKey() }
+func (v *VerifC13Node) Threshold() int               { return v.ni.threshold() }
+
+// Coeffs re-derives the dealer polynomial (deterministic from the secret seed).
+func (v *VerifC13Node) Coeffs() []groupsig.Seckey { return v.ni.genSecKeyList(v.ni.threshold()) }
